@@ -12,7 +12,7 @@ cache   apply_matcher's token cache maps key -> tokenize(value) with both column
 import ast
 
 from .. import AnalysisError
-from ..flow import view_of
+from ..flow import view_of, untag
 from ..guards import Conds, Universe, to_formula
 from ..model import U
 from ..side import expr_side
@@ -36,7 +36,12 @@ def _lookup_ok(view, f, e, st, side, attr_suffix):
         rn = kws.get('remove_null', d.args[3] if len(d.args) > 3 else None)
         ok = isinstance(rn, ast.Constant) and rn.value is False
         ok = ok and U(d.args[1]) == 'list(%s.columns.values).index(%s_key_attr)' % (t, s)
-    ok = ok and U(key) == 'candset_row[list(candset.columns.values).index(candset_%s_key_attr)]' % s
+    rowvar = None
+    for n in ast.walk(f.node):
+        if isinstance(n, ast.For) and isinstance(n.target, ast.Name) and U(n.iter).startswith('candset.itertuples(') \
+                and any(x is st for x in ast.walk(n)):
+            rowvar = n.target.id
+    ok = ok and rowvar is not None and U(key) == '%s[list(candset.columns.values).index(candset_%s_key_attr)]' % (rowvar, s)
     ok = ok and U(col).startswith('list(%s.columns.values).index(%s_' % (t, s)) and U(col).endswith('%s)' % attr_suffix)
     return ok, txt
 
@@ -45,8 +50,10 @@ def check_candset_mask(ctx):
     repo = ctx.repo
     f = repo.fn(FILTER_BASE, '_filter_candset_split')
     view = view_of(f)
+    from .common import mask_list_name
+    mask = mask_list_name(f)
     apps = [n for n in walk_own(f.node) if isinstance(n, ast.Expr) and isinstance(n.value, ast.Call) and call_name(n.value) == 'append'
-            and U(n.value.func.value) == 'valid_rows']
+            and U(n.value.func.value) == mask]
     if len(apps) != 1:
         raise AnalysisError('%s: mask append not found' % f.where)
     a = apps[0]
@@ -64,7 +71,7 @@ def check_candset_mask(ctx):
                       'key is the candidate row\'s %s key, looked up without dropping missing values'
                       % (side, txt[:160], side, side), a, sample=txt[:120])
     rets = [n for n in walk_own(f.node) if isinstance(n, ast.Return)]
-    okr = len(rets) == 1 and U(rets[0].value) == 'candset[valid_rows]'
+    okr = len(rets) == 1 and U(rets[0].value) == 'candset[%s]' % mask
     ctx.check('R-MASK/result', f, 'return', okr,
               '_filter_candset_split returns `%s`, not candset[valid_rows]' % (U(rets[0].value) if rets else '?'), f.node,
               sample='candset[valid_rows]')
@@ -178,7 +185,13 @@ def check_matcher_lookup(ctx):
     repo = ctx.repo
     f = repo.fn(MATCHER, '_apply_matcher_split')
     view = view_of(f)
-    for nm, side in (('l_apply_col_value', 'L'), ('r_apply_col_value', 'R')):
+    # the two values handed to the similarity function: the arguments of the one call of a *parameter* with two
+    # positional arguments (whatever the locals are called)
+    simcalls = [c for c in repo.calls_in(f) if isinstance(c.func, ast.Name) and c.func.id in f.params and len(c.args) == 2
+                and not c.keywords and all(isinstance(a, ast.Name) for a in c.args)]
+    if len(simcalls) != 1:
+        raise AnalysisError('%s: the call of the similarity function on two values was not found' % f.where)
+    for nm, side in ((simcalls[0].args[0].id, 'L'), (simcalls[0].args[1].id, 'R')):
         defs = [n for n in walk_own(f.node) if isinstance(n, ast.Assign) and isinstance(n.targets[0], ast.Name)
                 and n.targets[0].id == nm]
         base = [d for d in defs if isinstance(d.value, ast.Subscript) and 'tokens' not in U(d.value)]
@@ -193,7 +206,17 @@ def check_matcher_lookup(ctx):
             if d is base[0]:
                 continue
             e = U(d.value)
-            ok = e in ('%s_tokens[%s_id]' % (s, s), 'tokenizer.tokenize(%s)' % nm)
+            v = d.value
+            # the cache entry of this row's own key (cache and key of this side), or tokenize(this very value)
+            from ..side import expr_side as _es
+            is_cache = isinstance(v, ast.Subscript) and isinstance(v.value, ast.Name) and v.value.id in f.params \
+                and _es(v.value) == side and _es(v.slice) == side
+            if is_cache:
+                kx = view.expand(v.slice, d)
+                is_cache = isinstance(kx, ast.Subscript) and _es(kx.slice) == side
+            is_tok = isinstance(v, ast.Call) and isinstance(v.func, ast.Attribute) and v.func.attr == 'tokenize' \
+                and len(v.args) == 1 and U(v.args[0]) == nm
+            ok = is_cache or is_tok
             ctx.check('R-MASK/cache', f, '%s: %s' % (nm, e[:40]), ok,
                       '`%s = %s`: the tokenized value must be the cache entry of this row\'s own key or '
                       'tokenizer.tokenize of this row\'s own value' % (nm, e), d, sample=e)
@@ -216,22 +239,44 @@ def check_matcher_lookup(ctx):
     a = repo.fn(MATCHER, 'apply_matcher')
     av = view_of(a)
     n = 0
-    for c in repo.calls_in(a):
-        r = repo.resolve_call(a, c)
-        if r is not None and r[0] is g:
+    seen_sides = []
+    for h in repo.all_funcs():
+        if h.module is not a.module or h is g:
+            continue
+        hv = None
+        for c in repo.calls_in(h):
+            r = repo.resolve_call(h, c)
+            if r is None or r[0] is not g:
+                continue
             n += 1
             b = r[2]
-            st = av.stmt_of(c)
-            tgt = st.targets[0].id if isinstance(st, ast.Assign) and isinstance(st.targets[0], ast.Name) else '?'
-            s = 'l' if tgt.startswith('l') else 'r'
+            hv = hv or view_of(h)
+            st = hv.stmt_of(c)
+
+            def public(e):
+                """the argument written over apply_matcher's own (public) parameters"""
+                x = untag(hv.expand(e, st))
+                if h is a:
+                    return x
+                sites = [(c2, repo.resolve_call(a, c2)) for c2 in repo.calls_in(a)]
+                sites = [(c2, r2) for c2, r2 in sites if r2 is not None and r2[0] is h]
+                if len(sites) != 1:
+                    raise AnalysisError('%s: helper %s is not called exactly once from apply_matcher' % (a.where, h.name))
+                c2, r2 = sites[0]
+                st2 = av.stmt_of(c2)
+                from .common import subst_names
+                return subst_names(x, {p_: untag(av.expand(v_, st2)) for p_, v_ in r2[2].items()})
+            tx, kx, jx, tkx = public(b[tb]), public(b[ka]), public(b[ja]), public(b[tk])
+            s = 'l' if U(tx).startswith('ltable') else 'r' if U(tx).startswith('rtable') else '?'
+            seen_sides.append(s)
             t = 'ltable' if s == 'l' else 'rtable'
-            okc = U(av.expand(b[tb], st)).startswith(t + '[') and U(b[ka]) == '%s_key_attr' % s and U(b[ja]) == '%s_match_attr' % s \
-                and U(b[tk]) == 'tokenizer'
-            ctx.check('R-MASK/cache', a, '%s = generate_tokens(..)' % tgt, okc,
-                      '`%s` is generated from (%s, %s, %s)' % (tgt, U(b[tb]), U(b[ka]), U(b[ja])), c,
-                      sample='%s from (%s, %s_key_attr, %s_match_attr)' % (tgt, t, s, s))
-    if n != 2:
-        raise AnalysisError('%s: expected two generate_tokens calls' % a.where)
+            okc = s != '?' and U(tx).startswith(t + '[') and U(kx) == '%s_key_attr' % s and U(jx) == '%s_match_attr' % s \
+                and U(tkx) == 'tokenizer'
+            ctx.check('R-MASK/cache', a, '%s_tokens = generate_tokens(..)' % s, okc,
+                      'a token cache is generated from (%s, %s, %s)' % (U(tx)[:50], U(kx), U(jx)), c,
+                      sample='%s_tokens from (%s, %s_key_attr, %s_match_attr)' % (s, t, s, s))
+    if n != 2 or sorted(seen_sides) != ['l', 'r']:
+        raise AnalysisError('%s: expected one generate_tokens call per side (found %d: %s)' % (a.where, n, seen_sides))
 
 
 def run(ctx, candset=True, matcher=False):
